@@ -8,7 +8,7 @@ out = tempfile.mktemp(suffix=".xml", dir="/tmp")
 args = sys.argv[1:]
 cmd = ["/venv/bin/python", "-m", "pytest", "-q", "-p", "no:cacheprovider", "--timeout=900", "--continue-on-collection-errors",
        "-n", "14", "--junitxml=" + out] + args
-p = subprocess.run(cmd, cwd="/repo", capture_output=True, text=True)
+p = subprocess.run(cmd, cwd=os.environ.get("BASELINE_REPO", "/repo"), capture_output=True, text=True)
 print(p.stdout.strip().splitlines()[-1] if p.stdout.strip() else p.stderr[-500:])
 passed, notpassed = set(), set()
 for tc in ET.parse(out).getroot().iter("testcase"):
@@ -18,7 +18,12 @@ for tc in ET.parse(out).getroot().iter("testcase"):
     else:
         passed.add(name)
 os.unlink(out)
-regress = sorted(n for n in notpassed if n in stable)
+ignore = set()
+if os.environ.get("BASELINE_IGNORE") and os.path.exists(os.environ["BASELINE_IGNORE"]):
+    ignore = set(json.load(open(os.environ["BASELINE_IGNORE"])))
+regress = sorted(n for n in notpassed if n in stable and n not in ignore)
+if os.environ.get("BASELINE_WRITE_FAILS"):
+    json.dump(sorted(n for n in notpassed if n in stable), open(os.environ["BASELINE_WRITE_FAILS"], "w"), indent=0)
 seen_stable = len([n for n in passed | notpassed if n in stable])
 print("stable tests seen: %d of %d; regressions: %d" % (seen_stable, len(stable), len(regress)))
 for r in regress[:30]:
